@@ -156,6 +156,7 @@ func (z *Interpreter) Execute(varInputs r.ElementMap) (r.Element, error) {
 	}
 
 	vm := r.InitVM(GlobalValues)
+	verifOnVM(vm)
 	vm.SetModuleCodeFinder(finder)
 	vm.LoadExternalLibs(z.externalLibs)
 	// #4. eval program
